@@ -23,9 +23,6 @@ var ErrUnsupportedHashAlgorithm = errors.New("unsupported hash algorithm detecte
 
 var ErrEmptyCommandArgs = errors.New("the command args are empty")
 
-// visitedSymlinks is a hashset that contains all paths that we have visited.
-var visitedSymlinks Set
-
 /*
 RecordArtifact reads and hashes the contents of the file at the passed path
 using sha256 and returns a map in the following format:
@@ -93,9 +90,11 @@ If recording an artifact fails the first return value is nil and the second
 return value is the error.
 */
 func RecordArtifacts(paths []string, hashAlgorithms []string, gitignorePatterns []string, lStripPaths []string, lineNormalization bool, followSymlinkDirs bool) (evalArtifacts map[string]HashObj, err error) {
-	// Make sure to initialize a fresh hashset for every RecordArtifacts call
-	visitedSymlinks = NewSet()
-	evalArtifactsUnnormalized, err := recordArtifacts(paths, hashAlgorithms, gitignorePatterns, lStripPaths, lineNormalization, followSymlinkDirs)
+	// Make sure to initialize a fresh hashset for every RecordArtifacts call.
+	// The set belongs to this call alone, so that independent calls can run
+	// at the same time.
+	visitedSymlinks := NewSet()
+	evalArtifactsUnnormalized, err := recordArtifacts(visitedSymlinks, paths, hashAlgorithms, gitignorePatterns, lStripPaths, lineNormalization, followSymlinkDirs)
 	if err != nil {
 		return nil, err
 	}
@@ -128,7 +127,7 @@ the following format:
 If recording an artifact fails the first return value is nil and the second
 return value is the error.
 */
-func recordArtifacts(paths []string, hashAlgorithms []string, gitignorePatterns []string, lStripPaths []string, lineNormalization bool, followSymlinkDirs bool) (map[string]HashObj, error) {
+func recordArtifacts(visitedSymlinks Set, paths []string, hashAlgorithms []string, gitignorePatterns []string, lStripPaths []string, lineNormalization bool, followSymlinkDirs bool) (map[string]HashObj, error) {
 	artifacts := make(map[string]HashObj)
 	for _, path := range paths {
 		err := filepath.Walk(path,
@@ -190,7 +189,7 @@ func recordArtifacts(paths []string, hashAlgorithms []string, gitignorePatterns 
 					// the new path.
 					// The prefixes are stripped below, from the path that the
 					// artifact has below the symlink.
-					evalArtifacts, evalErr := recordArtifacts([]string{evalSym}, hashAlgorithms, gitignorePatterns, nil, lineNormalization, followSymlinkDirs)
+					evalArtifacts, evalErr := recordArtifacts(visitedSymlinks, []string{evalSym}, hashAlgorithms, gitignorePatterns, nil, lineNormalization, followSymlinkDirs)
 					if evalErr != nil {
 						return evalErr
 					}
